@@ -22,6 +22,7 @@ type replayInput struct {
 type replayFile struct {
 	Harness string        `json:"harness"`
 	Inputs  []replayInput `json:"inputs"`
+	Events  []string      `json:"events"`
 	Known   []string       `json:"known_enabled"`
 	Params  map[string]int `json:"params"`
 }
@@ -51,6 +52,8 @@ func LoadReplay() error {
 	}
 	mu.Lock()
 	replay = r
+	eventDone = map[int]bool{}
+	eventTaken = map[int]bool{}
 	cursor = 0
 	Failures = nil
 	Trace = nil
@@ -173,6 +176,71 @@ func ExploreSchedules(preemptions int) {}
 
 // Yield is a visible operation (a point where the scheduler may switch).
 func Yield() {}
+
+// EventBegin / EventEnd bracket an effect of a stub (block write, cache write,
+// emit, ...) with a label that is computed identically under the interpreter
+// and natively.  Under the interpreter EventBegin is a visible operation (a
+// preemption point), the label is appended to the path's event order, and the
+// bracketed region is atomic.  Natively, when the replay file carries an event
+// order (a schedule-dependent counterexample), EventBegin is a turnstile: it
+// blocks until every earlier event of the recorded order has ENDED, which
+// forces the real goroutines through the same order of effects.
+func EventBegin(label string) int {
+	mu.Lock()
+	if replay == nil || len(replay.Events) == 0 {
+		mu.Unlock()
+		return -1
+	}
+	pos := -1
+	for i := 0; i < len(replay.Events); i++ {
+		if replay.Events[i] == label && !eventTaken[i] {
+			pos = i
+			break
+		}
+	}
+	if pos < 0 {
+		mu.Unlock()
+		return -1
+	}
+	eventTaken[pos] = true
+	deadline := time.Now().Add(3 * time.Second)
+	for {
+		turn := true
+		for i := 0; i < pos; i++ {
+			if !eventDone[i] {
+				turn = false
+				break
+			}
+		}
+		if turn {
+			mu.Unlock()
+			return pos
+		}
+		if time.Now().After(deadline) {
+			Failures = append(Failures, "replay-mismatch: event order could not be enforced at "+label)
+			mu.Unlock()
+			return pos
+		}
+		mu.Unlock()
+		time.Sleep(time.Millisecond)
+		mu.Lock()
+	}
+}
+
+// EventEnd marks the effect begun with the given token as done.
+func EventEnd(token int) {
+	if token < 0 {
+		return
+	}
+	mu.Lock()
+	eventDone[token] = true
+	mu.Unlock()
+}
+
+var (
+	eventTaken = map[int]bool{}
+	eventDone  = map[int]bool{}
+)
 
 // Hash returns a content address token for x: equal contents ⇔ equal tokens.
 var NativeHash = func(x interface{}) string { return fmt.Sprintf("%#v", x) }
